@@ -372,6 +372,12 @@ func (r *run) serveBolt(host, conn int, c net.Conn) {
 			status = a.Step.Status
 		}
 		full := mesh.XResponse("bolt", uint32(x.ID), uint16(status), x.Token, []byte(upBody(x.Token, a.Idx)))
+		if upBody(x.Token, a.Idx) == "" {
+			// a response without content: who sent it and for which attempt is said by two header pairs instead of the body
+			hb := codec.EncodeHeaderBlock([]codec.KV{{K: []byte(mesh.TokenHeader), V: []byte(x.Token)}, {K: []byte(originHeader), V: []byte("up")}, {K: []byte(attemptHeader), V: []byte(strconv.Itoa(a.Idx))}})
+			class := []byte("com.alipay.sofa.rpc.core.response.SofaResponse")
+			full = codec.BuildBolt(codec.BoltFields{Ver1: 1, CmdType: 0, CmdCode: 2, Ver2: 1, ID: uint32(x.ID), Codec: 1, Status: uint16(status), ClassLen: len(class), HeaderLen: len(hb)}, class, hb, nil)
+		}
 		go r.act(a, c, &wmu, full, len(full)/2)
 	}
 }
@@ -607,6 +613,9 @@ func (cl *client) reader() {
 			o.Status, o.Token, o.ID, o.Body = int(x.Status), x.Token, x.ID, string(x.Body)
 			if !x.Response {
 				o.Origin = "not-a-response"
+			} else if hv := headerOf(x.Headers, originHeader); hv == "up" {
+				o.Origin = "up"
+				o.Attempt, _ = strconv.Atoi(headerOf(x.Headers, attemptHeader))
 			} else if strings.HasPrefix(o.Body, "up:") || strings.HasPrefix(o.Body, "aux:") {
 				o.Origin = "up"
 				if p := strings.Split(o.Body, ":"); len(p) >= 3 && p[0] == "up" {
@@ -1070,4 +1079,13 @@ func (r *run) liveness(string) string {
 		return fmt.Sprintf("answered-by-mosn:%d", o.Status)
 	}
 	return "no-answer"
+}
+
+func headerOf(kvs []codec.KV, name string) string {
+	for _, kv := range kvs {
+		if strings.EqualFold(string(kv.K), name) {
+			return string(kv.V)
+		}
+	}
+	return ""
 }
